@@ -41,6 +41,8 @@ From TI Require Import lib.Sched model.Caches proofs.CachesProofs proofs.MemoPro
 From TI Require Import model.CachesInval proofs.InvalProofs.
 From TI Require Import model.CachesEnv proofs.EnvKeyProofs model.CachesHand proofs.HandProofs.
 From TI Require Import model.CachesArgs proofs.ArgsProofs.
+From Coq Require Import String.
+From TI Require Import model.MemoShape gen.MemoSrc proofs.MemoSrcTie.
 
 (** the cell size returned after any history is the fresh one for the current terminal
     size and swap setting, under the query status in force when the entry was made *)
@@ -632,3 +634,83 @@ Theorem C15_args_code_argument_blind :
     /\ spec_ok true b t0 nil cmds (code_run b (cinit t0) cmds) = false.
 Proof. exact code_argument_blind_lemma. Qed.
 Print Assumptions C15_args_code_argument_blind.
+
+(** ** Source tie of the micro-step machines (gen/MemoSrc.v is regenerated from utils.py and
+    term_image/__init__.py on every run by harness/tx/tx_memo.py; model/MemoShape.v labels
+    every transition of [qstep_gen] / [wstep_gen] with the source step it stands for and
+    computes the label trace of one command run alone FROM THE STEP FUNCTIONS) *)
+
+(** a memoised call (miss path) and the invalidator perform the source's steps in the
+    source's order *)
+Theorem C15_source_memo_call_order :
+  (forall f0 k, qsolo true f0 (QCall k) = src_cached_call)
+  /\ (forall f0, qsolo true f0 QInval = src_cached_inval).
+Proof. exact (conj memo_call_is_source_lemma memo_inval_is_source_lemma). Qed.
+Print Assumptions C15_source_memo_call_order.
+
+(** the machine all C15_inval_* theorems are about (the invalidator takes the decorator's
+    lock) is the source's; the refuted lock-free variant is not *)
+Theorem C15_source_invalidate_under_lock :
+  forall locked f0, qsolo locked f0 QInval = src_cached_inval <-> locked = true.
+Proof. exact memo_inval_locked_iff_lemma. Qed.
+Print Assumptions C15_source_invalidate_under_lock.
+
+(** lookup, body and store of one call lie inside one lock region *)
+Theorem C15_source_memo_call_region :
+  once_before LAcquire LLookup src_cached_call = true
+  /\ once_before LLookup LBody src_cached_call = true
+  /\ once_before LBody LStore src_cached_call = true
+  /\ once_before LStore LRelease src_cached_call = true.
+Proof. exact memo_call_region_lemma. Qed.
+Print Assumptions C15_source_memo_call_region.
+
+(** [enable_queries()] seen from every [@cached] function of the package and from the
+    cell-size cache is the machine's [QEnable] (flag write first, then acquire / clear /
+    release); [disable_queries()] is [QDisable] *)
+Theorem C15_source_enable_queries_order :
+  (forall m, In m src_cached_functions ->
+     flat_map (proj_memo src_cached_inval m) src_enable_queries = qsolo true false QEnable)
+  /\ flat_map proj_cell src_enable_queries = qsolo true false QEnable
+  /\ toggle_head "_queries_enabled" true src_enable_queries = true
+  /\ qsolo true true QEnable = [LTest].
+Proof. exact enable_queries_is_source_lemma. Qed.
+Print Assumptions C15_source_enable_queries_order.
+
+Theorem C15_source_disable_queries_order :
+  forall m f0, flat_map (proj_memo src_cached_inval m) src_disable_queries = qsolo true f0 QDisable
+               /\ flat_map proj_cell src_disable_queries = qsolo true f0 QDisable.
+Proof. exact disable_queries_is_source_lemma. Qed.
+Print Assumptions C15_source_disable_queries_order.
+
+(** every function memoised with [@cached] anywhere in the package is invalidated by
+    [enable_queries()] after the flag write (the defect repaired by aab4c9c was a memo
+    outside this list) *)
+Theorem C15_source_every_memo_invalidated :
+  forall m, In m src_cached_functions ->
+    exists pre post, src_enable_queries = (pre ++ TInval m :: post)%list
+                     /\ In (TWrite "_queries_enabled" true) pre.
+Proof. exact every_memo_invalidated_lemma. Qed.
+Print Assumptions C15_source_every_memo_invalidated.
+
+(** the win-size-swap toggles are the machine's [WToggle] ([wstep_gen false]); the refuted
+    variant that writes the flag after the lock region is not *)
+Theorem C15_source_swap_toggle_order :
+  (flat_map proj_cell src_enable_win_size_swap = wsolo false false (WToggle true)
+   /\ flat_map proj_cell src_disable_win_size_swap = wsolo false true (WToggle false)
+   /\ toggle_head "_swap_win_size" true src_enable_win_size_swap = true
+   /\ toggle_head "_swap_win_size" false src_disable_win_size_swap = true
+   /\ wsolo false true (WToggle true) = [LTest]
+   /\ wsolo false false (WToggle false) = [LTest])
+  /\ (forall late, wsolo late false (WToggle true) = flat_map proj_cell src_enable_win_size_swap
+                   <-> late = false).
+Proof. exact (conj swap_toggles_are_source_lemma swap_toggle_late_iff_lemma). Qed.
+Print Assumptions C15_source_swap_toggle_order.
+
+(** [terminal_size_cached]: the key is read once, under the lock, before the test and the
+    body, and the slot is written after the body inside the same region — the order
+    [get_tsc_resize] and [CachesArgs.code_run] assume *)
+Theorem C15_source_tsc_key_before_body :
+  tsc_shape_ok src_tsc_call = true
+  /\ src_tsc_inval = [LAcquire; LClearSlot; LRelease].
+Proof. exact tsc_shape_is_source_lemma. Qed.
+Print Assumptions C15_source_tsc_key_before_body.
